@@ -3,7 +3,7 @@ CONSTANTS
   Kinds = {"small"}
   Times = {1, 2, 5, 14, 17, 21, 50, 61}
   Start = 1
-  ChkSet = {FALSE, TRUE}
+  ChkSet = {FALSE}
   GenDepth = 4
 INVARIANT Emit
 CHECK_DEADLOCK FALSE
